@@ -119,6 +119,14 @@ var (
 
 	b, _ := json.MarshalIndent(map[string]any{"Replace": overlay}, "", " ")
 	must(os.WriteFile(filepath.Join(build, "overlay.json"), b, 0o644))
+
+	// 5. second overlay for the self-killing updog binary: one more file in package main of cmd/updog
+	kill := filepath.Join(filepath.Dir(harness), "tools", "killhook", "zz_verif_kill.go")
+	if _, err := os.Stat(kill); err == nil {
+		overlay[filepath.Join(repo, "cmd", "updog", "zz_verif_kill.go")] = kill
+		b, _ = json.MarshalIndent(map[string]any{"Replace": overlay}, "", " ")
+		must(os.WriteFile(filepath.Join(build, "overlay-kill.json"), b, 0o644))
+	}
 }
 
 func must(err error) {
